@@ -61,6 +61,25 @@ def split_sections(line):
     # derived key: the role alone (SEC_HARD = term vote role leader_id votes...)
     if len(res.get("hard", ())) >= 3:
         res["hard.role"] = (res["hard"][2],)
+    # derived keys: the commit index alone; (id, matched) of every tracked peer alone
+    if res.get("log"):
+        res["log.commit"] = (res["log"][0],)
+    pr = res.get("progress")
+    if pr:
+        try:
+            out_m = []
+            k = 1
+            for _ in range(int(pr[0])):
+                out_m.append((pr[k], pr[k + 1]))        # id, matched
+                k += 8                                   # id matched next state paused psnap preq active
+                k += 3                                   # inflights: start count cap
+                k += 2 if pr[k] != "0" else 1            # incoming cap option
+                k += 1                                   # allocated
+                k += 1 + int(pr[k])                      # buffer
+                k += 2                                   # commit_group_id committed_index
+            res["progress.matched"] = tuple(out_m)
+        except (IndexError, ValueError):
+            res["progress.matched"] = tuple(pr)
     return res
 
 
@@ -87,7 +106,7 @@ def cache_key(tier, seed):
     for p in (C.VH, C.DRIVER):
         st = os.stat(p)
         h.update(("%s:%d:%d" % (p, st.st_mtime_ns, st.st_size)).encode())
-    h.update(("v14:%s:%s" % (tier, seed)).encode())
+    h.update(("v16:%s:%s" % (tier, seed)).encode())
     return h.hexdigest()[:16]
 
 
@@ -266,9 +285,13 @@ def check(spec, tier, seed, replay=None):
     violation = None
     known = []
     fail = None
-    if okh and (broken or spec.get("always_monitor")):
-        C.log("[%s] running the property monitor on the implementation" % pid)
-        fail, known = run_monitor(spec, tier, seed, bool(broken))
+    # the model and the implementation disagree somewhere OUTSIDE this property's projection (or
+    # modelled functions changed): not an alarm for this property, but a reason to search harder
+    # for a failing input of THIS property on the implementation
+    elsewhere = bool(summ.get("disagreements", 0)) or bool(summ.get("changed_functions"))
+    if okh and (broken or elsewhere or spec.get("always_monitor")):
+        C.log("[%s] running the property monitor on the implementation%s" % (pid, " (escalated)" if (broken or elsewhere) else ""))
+        fail, known = run_monitor(spec, tier, seed, bool(broken) or elsewhere)
     if broken or fail:
         body = "property: %s\ntier: %s\nseed: %s\nrepo: %s\n" % (pid, tier, seed, C.repo_tree_hash())
         for b in broken:
